@@ -37,7 +37,7 @@ class PathResolver:
     def path(self, e, depth=0, subst=None):
         """Return list of steps, first is the root tuple; None if not a path."""
         e = strip_casts(e)
-        if not isinstance(e, dict) or depth > 8:
+        if not isinstance(e, dict) or depth > 24:
             return None
         k = e.get("k")
         if k == "this":
@@ -54,7 +54,7 @@ class PathResolver:
                 if subst is not None:
                     return None
                 v = self.locals.get(e.get("vid"))
-                if v is not None and (v.get("ref") or self._is_pointer(v)) and v.get("init") is not None:
+                if v is not None and (v.get("ref") or self._is_alias(v)) and v.get("init") is not None:
                     p = self.path(v["init"], depth + 1)
                     if p is not None:
                         return p
@@ -93,7 +93,7 @@ class PathResolver:
                 return None if bp is None else bp + [("deref", name)]
             # accessor inlining: callee body is `return <path>;`
             callee = self.prog.fn_by_id(self.fn, e.get("fn")) if e.get("fn") is not None else None
-            if callee is not None and depth < 6:
+            if callee is not None and depth < 20:
                 ret = single_return(callee)
                 if ret is not None:
                     sub = {}
@@ -110,9 +110,12 @@ class PathResolver:
             return None
         return None
 
-    @staticmethod
-    def _is_pointer(v):
-        return False
+    def _is_alias(self, v):
+        """locals that denote (rather than copy) another object: iterators and raw pointers"""
+        t = self.prog.T(self.fn, v.get("t")) if v.get("t") is not None else ""
+        t = t.replace("const ", "")
+        return "__normal_iterator<" in t or "_Rb_tree_iterator" in t or "_Rb_tree_const_iterator" in t or "_List_iterator" in t or \
+            "_Node_iterator" in t or t.rstrip().endswith("*")
 
 
 def single_return(fn):
